@@ -351,6 +351,8 @@ func replay(kind string, raw json.RawMessage) error {
 	switch kind {
 	case "pre":
 		return run.Decode(raw, checkPre)
+	case "spell":
+		return run.Decode(raw, checkSpell)
 	case "table", "value", "cache":
 		return run.Decode(raw, checkTruth)
 	default: // "shape", "slot", "scope", "comp", "after", "place", "nest"
@@ -527,6 +529,23 @@ func TestProp(t *testing.T) {
 	})
 	if plfailed == 0 {
 		rec.Exhaustive(fmt.Sprintf("places: chain (0..2 v-else-if, optional v-else) x all assignments x {content of <template #side> handed by the page to its layout's named slot, written into the layout file, inside <noscript> / <ul> / <select> / <table><tbody> at top level and inside a div} x 2 separators, doors in turn (%d cases)", npl))
+	}
+
+	// ---- equivalent spellings of the conditions and of the chain markup
+	nsp, spfailed := 0, 0
+	enumSpell(func(c SpellCase) bool {
+		nsp++
+		if nsp%shards != shard {
+			return true
+		}
+		nt, cls := classifySpell(c)
+		if !run.Each(rec, "spell", c, nt, cls, checkSpell) {
+			spfailed++
+		}
+		return spfailed < 8
+	})
+	if spfailed == 0 {
+		rec.Exhaustive(fmt.Sprintf("spellings: %d spellings of a condition (== / != / === / !== with 1..4 occurrences, compact and spaced operators, negation with and without blank, a.b / a['b'] / a[\"b\"], items[0] / items.0, line breaks) x {elements, <template> wrappers} and 6 of them x {attribute order, upper-case tags and attributes, single-quoted attributes, shorthand component tags, <template include ... v-else>} x 4 assignments, chain + v-show / :data-x / :class probe, doors in turn (%d cases)", len(spellings), nsp))
 	}
 
 	// ---- components written compactly with a <template> root, as include and as shorthand tag
